@@ -1023,7 +1023,11 @@ func genHistory(rt *rapid.T, fork string, p *reg.Preset, tour bool) *Case {
 	}
 	init := refssz.Serialize(t, refssz.Random(rt, t, o, "state"))
 	c := &Case{Kind: "history", Fork: fork, Preset: p.Name, Init: hex.EncodeToString(init)}
-	n := rapid.IntRange(3, 40).Draw(rt, "n_actions")
+	maxActs := 40
+	if p.Name == "mainnet" {
+		maxActs = 8 // every check re-merkleizes a 2.7 MB state three times
+	}
+	n := rapid.IntRange(3, maxActs).Draw(rt, "n_actions")
 	for i := 0; i < n; i++ {
 		c.Acts = append(c.Acts, genAction(rt, p, fork, fi, t))
 	}
@@ -1097,7 +1101,7 @@ func historySearch(t *testing.T, r *report.Run) {
 			}
 			n := r.N(320, 4800) // per (fork, preset), split among the shards
 			if pn == "mainnet" {
-				n = r.N(32, 64)
+				n = r.N(16, 32)
 			} else if pn == "minimal" {
 				n = r.N(160, 2400)
 			}
@@ -1110,3 +1114,16 @@ func historySearch(t *testing.T, r *report.Run) {
 		}
 	}
 }
+
+// Sensitivity (tools/trymut.py, quick tier, all CAUGHT):
+//   N1  phase0/deposit.go      Deposits.HashTreeRoot limit MAX_DEPOSITS -> MAX_ATTESTATIONS
+//   N2  common/header.go       BeaconBlockHeader.HashTreeRoot: ParentRoot <-> StateRoot
+//   N3  phase0/state.go        SetSlot writes field _stateGenesisTime (caught by the model)
+//   N4  common/bls.go          BLSSignature.HashTreeRoot third chunk s[63:95]
+//   N5  phase0/randao.go       SeedRandao fills length-1 leaves
+//   N6  phase0/history.go      HistoricalRootsType (view) limit VALIDATOR_REGISTRY_LIMIT
+//   N7  altair/participation.go FillZeroes node count (length+30)/32
+//   N8  common/justification.go JustificationBitsView.Set assigns BackingNode without SetBacking (no propagation)
+//   N9  common/eth1.go         Eth1Data fields swapped symmetrically in Serialize+Deserialize (struct root vs spec)
+//   N10 common/eth1.go         Eth1Data.View() passes block_hash/deposit_root swapped to FromFields
+//   N11 capella/state.go       SetNextWithdrawalValidatorIndex writes _nextWithdrawalIndex
